@@ -9,7 +9,7 @@ M=/tmp/mut/$ID; WT=$M/wt; OUT=$M/out
 cd "$WT" || exit 2
 git checkout -q -- . ; git clean -fdq
 git apply "$OUT/patch.diff" || { echo "patch does not apply on base"; exit 2; }
-cp "$OUT/demo_test.go" "$DEMO"
+mkdir -p "$(dirname "$DEMO")"; cp "$OUT/demo_test.go" "$DEMO"
 $GO125 test -vet=off -count=1 -run "$RUN" "$PKG" > $M/confirm-with.log 2>&1; with=$?
 git apply -R "$OUT/patch.diff"
 $GO125 test -vet=off -count=1 -run "$RUN" "$PKG" > $M/confirm-without.log 2>&1; without=$?
